@@ -64,7 +64,8 @@ class Track(object):
         attached to the Track, but the note turns out not to be within the
         range of the Instrument.
         """
-        if self.instrument != None:
+        # A rest (None) can be played by every instrument
+        if self.instrument != None and note is not None:
             if not self.instrument.can_play_notes(note):
                 raise InstrumentRangeError(
                     "Note '%s' is not in range of the instrument (%s)" % (note, self.instrument)
